@@ -1,6 +1,7 @@
 import Proofs.Ledger.NodesExamples
 import Proofs.Ledger.NodesSlash
 import Proofs.Ledger.NodesC22
+import Proofs.Ledger.NodesLog
 /-!
 # C25 — Slashing and jailing follow the documented rules
 
@@ -45,6 +46,20 @@ theorem slash_bounded_fraction (s : State) (hi : Inv s) (a : Addr) (v : Val) (hv
   have hk := hi.keys a v hv
   obtain ⟨v', h1, h2, _⟩ := h.record
   exact ⟨h.bounded.1, h.bounded.2.1, ⟨v', by rw [hk] at h1; exact h1, by omega⟩, h.supply, h.pool⟩
+
+/-- Trace level: over every history every burn that follows a token removal succeeds (pool and supply shrink by
+what the record lost) — the early return of `slash`/`simpleSlash` after a failed `burnStakedTokens`, which would
+leave the record reduced and the coins in the pool, is unreachable. -/
+theorem burns_never_fail (s : State) (hi : Inv s) (ops : List Op) (hops : ∀ op ∈ ops, op.isPoolSend = false)
+    (hclean : ∀ e ∈ s.log, e.failed = false) (a : Addr) (req k : Int) (ok : Bool)
+    (he : Event.burn a req k ok ∈ (run s ops).log) : ok = true := by
+  obtain ⟨l, hl, hc⟩ := ext_run hi ops hops
+  rw [hl] at he
+  have : (Event.burn a req k ok).failed = false := by
+    rcases List.mem_append.mp he with h | h
+    · exact hclean _ h
+    · exact hc _ h
+  simpa [Event.failed] using this
 
 /-- A slash with a non-positive amount, or of an address without record, does nothing. -/
 theorem slash_noop (s : State) (a : Addr) (amount : Int) (h : amount ≤ 0 ∨ aget s.vals a = none) :
